@@ -75,6 +75,7 @@ func driverHist(c *Ctx) {
 		}
 		g := c.gen(i)
 		g.MaxKids, g.MaxVals = 3, 3
+		g.Ladder, g.LadderTo = 40, 65
 		var objs []hobj
 		var script []func() ([]interface{}, []interface{})
 		c.emit(i, J{"ev": "reset"})
